@@ -205,15 +205,16 @@ Qed.
 (* every world operation except remove_property_layer("empty") keeps the invariants of the embedded state *)
 Theorem wstep_inv w o : no_delempty o = true -> Inv12 (w_st w) -> Inv12 (w_st (fst (wstep w o))).
 Proof.
-  intros Hn I. destruct o as [o'|mech src root|s label ci|s label|s ci name v|s|s]; try discriminate; cbn [wstep].
-  - destruct o'; try exact I; try (destruct (fixed_guard w s label); [exact I|]); apply inner_case; exact I.
+  intros Hn I. destruct o as [o'|mech src root|s label ci|s label|s ci name v|s|s|s ci key cj]; try discriminate; cbn [wstep].
+  - destruct o'; try exact I; try (destruct (fixed_guard w s label); [exact I|]);
+      try (destruct (xconn_target w s label key)); apply inner_case; exact I.
   - apply wcopy_inv. exact I.
   - destruct (fixed_guard w s label); [exact I|].
     pose proof (inner_step_inv w (Move s label ci) I) as J.
     destruct (inner_step w (Move s label ci)) as [[w' news] r]. cbn [fst] in *.
     destruct (assoc label (tab_of w s)); exact J.
   - destruct (assoc label (tab_of w s)) as [a|]; [|exact I]. destruct (model_of w s) as [m|]; [|exact I].
-    destruct (memn a (w_fixed w) || negb (memn a (nth m (w_models w) []))); [exact I|].
+    destruct (negb (memn a (nth m (w_models w) []))); [exact I|].
     pose proof (inner_step_inv w (Leave s label) I) as J.
     destruct (inner_step w (Leave s label)) as [[w' news] r]. exact J.
   - destruct (side_of w s) as [sd|]; [|exact I]. destruct (ci <? 0); [exact I|].
@@ -221,6 +222,9 @@ Proof.
   - destruct (nth_side (st_sets (w_st w)) s) as [ss|] eqn:En; [|exact I].
     destruct (nth (Z.to_nat s) (w_setpin w) true); [exact I|]. cbn [fst with_st w_st].
     apply (forget_inv _ _ ss I En).
+  - destruct (side_of w s) as [sd|]; [|exact I]. destruct ((ci <? 0) || (cj <? 0) || (key <? HANDMADE)); [exact I|].
+    destruct (nth_error (s_cells (sd_space sd)) (Z.to_nat ci)); [|exact I].
+    destruct (nth_error (s_cells (sd_space sd)) (Z.to_nat cj)); exact I.
 Qed.
 
 Theorem wrun_inv w ops : forallb no_delempty ops = true -> Inv12 (w_st w) -> Inv12 (w_st (wrun_states w ops)).
@@ -363,7 +367,7 @@ Proof.
   pose proof (step_labels (w_st w) o) as [Hlen _]. pose proof (step_sides_length (w_st w) o Hc) as Hsl.
   unfold inner_step in *. destruct (step (w_st w) o) as [st' r]. cbn [fst] in *.
   unfold set_pins, register in *. unfold model_of, with_st. cbn [w_smodel w_st].
-  set (news := if is_set_op o then [] else map snd (skipn (length (tab_of w (op_side o))) (tab_of {| w_st := st'; w_models := w_models w; w_grid := w_grid w; w_smodel := w_smodel w; w_amodel := w_amodel w; w_fixed := w_fixed w; w_user := w_user w; w_setpin := w_setpin w |} (op_side o)))) in *.
+  set (news := if is_set_op o then [] else map snd (skipn (length (tab_of w (op_side o))) (tab_of {| w_st := st'; w_models := w_models w; w_grid := w_grid w; w_smodel := w_smodel w; w_amodel := w_amodel w; w_fixed := w_fixed w; w_user := w_user w; w_setpin := w_setpin w; w_xconn := w_xconn w; w_ghost := w_ghost w |} (op_side o)))) in *.
   assert (Hnews : forall a, In a news -> (a < length (h_agents (st_heap st')))%nat).
   { intros a Ha. unfold news in Ha. destruct (is_set_op o); [destruct Ha|].
     apply in_map_iff in Ha. destruct Ha as [la [<- Hla]]. apply in_skipn' in Hla. unfold tab_of, side_of in Hla.
@@ -394,7 +398,7 @@ Proof.
                   w_models := w_models w ++ [models']; w_grid := w_grid w ++ [length (st_sides (w_st w))];
                   w_smodel := w_smodel w ++ [length (w_models w)];
                   w_amodel := w_amodel w ++ map (fun la => (snd la, length (w_models w))) tab2;
-                  w_fixed := fixed'; w_user := user'; w_setpin := w_setpin w |}).
+                  w_fixed := fixed'; w_user := user'; w_setpin := w_setpin w; w_xconn := w_xconn w; w_ghost := w_ghost w |}).
   { intros h2 tab2 newreg Hl Jf models' fixed' user'. constructor; cbn [w_grid w_models w_smodel w_st w_amodel st_sides st_heap].
     - rewrite !app_length. simpl. rewrite (ws_grid _ S). reflexivity.
     - rewrite !app_length. simpl. rewrite (ws_smodel _ S). reflexivity.
@@ -418,15 +422,16 @@ Qed.
 
 Theorem wstep_ws w o : no_delempty o = true -> Inv12 (w_st w) -> WS w -> WS (fst (wstep w o)).
 Proof.
-  intros Hn I S. destruct o as [o'|mech src root|s label ci|s label|s ci name v|s|s]; try discriminate; cbn [wstep].
-  - destruct o'; try exact S; try (destruct (fixed_guard w s label); [exact S|]); apply inner_case_ws; try reflexivity; assumption.
+  intros Hn I S. destruct o as [o'|mech src root|s label ci|s label|s ci name v|s|s|s ci key cj]; try discriminate; cbn [wstep].
+  - destruct o'; try exact S; try (destruct (fixed_guard w s label); [exact S|]);
+      try (destruct (xconn_target w s label key)); apply inner_case_ws; try reflexivity; assumption.
   - apply wcopy_ws; assumption.
   - destruct (fixed_guard w s label); [exact S|].
     pose proof (inner_step_ws w (Move s label ci) eq_refl I S) as J.
     destruct (inner_step w (Move s label ci)) as [[w' news] r]. cbn [fst] in *.
     destruct (assoc label (tab_of w s)); [exact J|]. destruct J. constructor; assumption.
   - destruct (assoc label (tab_of w s)) as [a|]; [|exact S]. destruct (model_of w s) as [m|]; [|exact S].
-    destruct (memn a (w_fixed w) || negb (memn a (nth m (w_models w) []))); [exact S|].
+    destruct (negb (memn a (nth m (w_models w) []))); [exact S|].
     pose proof (inner_step_ws w (Leave s label) eq_refl I S) as J.
     destruct (inner_step w (Leave s label)) as [[w' news] r]. cbn [fst] in *. destruct J as [J1 J2 J3].
     constructor; cbn [w_grid w_models w_smodel w_st w_amodel]; [rewrite upd_length; exact J1|exact J2|exact J3].
@@ -434,6 +439,9 @@ Proof.
     destruct (nth_error (s_cells (sd_space sd)) (Z.to_nat ci)); [|exact S]. destruct S. constructor; assumption.
   - destruct (nth_side (st_sets (w_st w)) s) as [ss|]; [|exact S].
     destruct (nth (Z.to_nat s) (w_setpin w) true); [exact S|]. destruct S. constructor; assumption.
+  - destruct (side_of w s) as [sd|]; [|exact S]. destruct ((ci <? 0) || (cj <? 0) || (key <? HANDMADE)); [exact S|].
+    destruct (nth_error (s_cells (sd_space sd)) (Z.to_nat ci)); [|exact S].
+    destruct (nth_error (s_cells (sd_space sd)) (Z.to_nat cj)); [|exact S]. destruct S. constructor; assumption.
 Qed.
 
 Theorem world_reachable c ops : good_case c -> forallb no_delempty ops = true ->
@@ -539,4 +547,165 @@ Proof.
   cbn [fst with_st w_st with_set st_sets st_sides st_heap]. unfold put_side. apply nth_side_Some in En.
   split; [rewrite nth_error_upd, Nat.eqb_refl, En; reflexivity|]. split; [|split; reflexivity].
   intros k Hk. rewrite nth_error_upd. destruct (Nat.eqb (Z.to_nat s) k) eqn:E; [apply Nat.eqb_eq in E; congruence|reflexivity].
+Qed.
+
+(* ------------------------------------------------------------------ refinement for the world layer *)
+(* the operation of Model/Copy.v a world operation performs on the embedded state (None: the embedded state is untouched) *)
+Definition weffect (w : world) (o : wop) : option op :=
+  match o with
+  | Inner (Copy _ _) => None
+  | Inner (Move s label _ as o') | Inner (Leave s label as o') => if fixed_guard w s label then None else Some o'
+  | Inner (RelMove s label key as o') =>
+      if fixed_guard w s label then None
+      else match xconn_target w s label key with Some idx => Some (Move s label idx) | None => Some o' end
+  | Inner o' => Some o'
+  | PlaceFixed s label ci => if fixed_guard w s label then None else Some (Move s label ci)
+  | Kill s label =>
+      match assoc label (tab_of w s), model_of w s with
+      | Some a, Some m => if negb (memn a (nth m (w_models w) [])) then None else Some (Leave s label)
+      | _, _ => None
+      end
+  | _ => None
+  end.
+
+Definition plain (o : wop) : bool :=
+  match o with WCopy _ _ _ | SForget _ | DelEmpty _ => false | _ => true end.
+
+Lemma inner_case_st w o : w_st (fst (let '(w', _, r) := inner_step w o in (w', r))) = fst (step (w_st w) o).
+Proof. pose proof (inner_step_st w o) as E. destruct (inner_step w o) as [[w' news] r]. exact E. Qed.
+
+Lemma weffect_st w o : plain o = true ->
+  w_st (fst (wstep w o)) = match weffect w o with Some o' => fst (step (w_st w) o') | None => w_st w end.
+Proof.
+  intros Hp. destruct o as [o'|mech src root|s label ci|s label|s ci name v|s|s|s ci key cj]; try discriminate;
+    cbn [wstep weffect].
+  - destruct o'; try reflexivity; try (destruct (fixed_guard w s label); [reflexivity|]);
+      try (destruct (xconn_target w s label key)); apply inner_case_st.
+  - destruct (fixed_guard w s label); [reflexivity|].
+    pose proof (inner_step_st w (Move s label ci)) as E.
+    destruct (inner_step w (Move s label ci)) as [[w' news] r]. cbn [fst] in *.
+    destruct (assoc label (tab_of w s)); exact E.
+  - destruct (assoc label (tab_of w s)) as [a|]; [|reflexivity]. destruct (model_of w s) as [m|]; [|reflexivity].
+    destruct (negb (memn a (nth m (w_models w) []))); [reflexivity|].
+    pose proof (inner_step_st w (Leave s label)) as E.
+    destruct (inner_step w (Leave s label)) as [[w' news] r]. exact E.
+  - destruct (side_of w s) as [sd|]; [|reflexivity]. destruct (ci <? 0); [reflexivity|].
+    destruct (nth_error (s_cells (sd_space sd)) (Z.to_nat ci)); reflexivity.
+  - destruct (side_of w s) as [sd|]; [|reflexivity]. destruct ((ci <? 0) || (cj <? 0) || (key <? HANDMADE)); [reflexivity|].
+    destruct (nth_error (s_cells (sd_space sd)) (Z.to_nat ci)); [|reflexivity].
+    destruct (nth_error (s_cells (sd_space sd)) (Z.to_nat cj)); reflexivity.
+Qed.
+
+(* one plain world operation, seen from side j: its abstract state moves by the abstract machine of Model/Copy.v on the
+   operation actually performed (a refused operation on a FixedAgent, a user attribute, a hand-made connection: not at all;
+   move_relative along a hand-made connection: as the move to its target) *)
+Theorem wstep_refines w o j sd : Inv12 (w_st w) -> plain o = true -> nth_error (st_sides (w_st w)) j = Some sd ->
+  exists sd', nth_error (st_sides (w_st (fst (wstep w o)))) j = Some sd' /\
+    absf (st_heap (w_st (fst (wstep w o)))) sd'
+    = match weffect w o with
+      | Some o' => if touches o' j then fst (astep (absf (st_heap (w_st w)) sd) o') else absf (st_heap (w_st w)) sd
+      | None => absf (st_heap (w_st w)) sd
+      end.
+Proof.
+  intros [I I2] Hp Hj. rewrite (weffect_st w o Hp). destruct (weffect w o) as [o'|].
+  - apply (step_seen_from (w_st w) o' j sd I I2 Hj).
+  - exists sd. split; [exact Hj|reflexivity].
+Qed.
+
+(* copying: the carried registry only allocates *)
+Lemma carry_frame h0 reg : forall hh tab done,
+  frame [] [] [] None hh (fst (fst (carry h0 reg hh tab done))).
+Proof.
+  induction reg as [|a t IH]; intros hh tab done; simpl; [apply frame_refl|].
+  destruct (find_or_create hh tab (a_label (geta h0 a))) as [[hh' a'] tab'] eqn:Ef.
+  destruct (foc_set _ _ _ _ _ _ Ef) as [F _]. eapply frame_trans; [exact F|apply IH].
+Qed.
+
+(* the copy starts in the abstract state of its source - whether the space or the model was copied, whatever travelled in
+   the registry - and no existing side changes *)
+Theorem wcopy_refines w src root sd m :
+  Inv12 (w_st w) -> nth_side (st_sides (w_st w)) src = Some sd -> model_of w src = Some m ->
+  Nat.leb MAX_SIDES (length (st_sides (w_st w))) = false ->
+  let w' := fst (wcopy w src root) in
+  (exists sd2, nth_error (st_sides (w_st w')) (length (st_sides (w_st w))) = Some sd2 /\
+               absf (st_heap (w_st w')) sd2 = absf (st_heap (w_st w)) sd) /\
+  (forall j sdj, nth_error (st_sides (w_st w)) j = Some sdj ->
+     nth_error (st_sides (w_st w')) j = Some sdj /\ absf (st_heap (w_st w')) sdj = absf (st_heap (w_st w)) sdj).
+Proof.
+  intros [I I2] En Em Hm. cbv zeta. unfold wcopy. rewrite En, Em, Hm.
+  pose proof (nth_side_Some _ _ _ En) as En'. pose proof (inv_ok _ I _ _ En') as [W [NG _]].
+  pose proof (copy_absf (st_heap (w_st w)) sd W) as Ea.
+  pose proof (copy_wf (st_heap (w_st w)) sd W NG) as W1.
+  pose proof (fun sd0 W0 => copy_leaves_others (st_heap (w_st w)) sd sd0 W0) as Hothers.
+  unfold copy_heap, copy_side in *.
+  destruct (copy_space (st_heap (w_st w)) sd) as [h1 [sp1 tab1]]. cbn [fst snd sd_space sd_tab] in *.
+  assert (Hext : forall h2 tab2, frame [] [] [] None h1 h2 ->
+            (exists sd2, nth_error (st_sides (w_st w) ++ [{| sd_space := sp1; sd_tab := tab2 |}]) (length (st_sides (w_st w))) = Some sd2 /\
+                         absf h2 sd2 = absf (st_heap (w_st w)) sd) /\
+            (forall j sdj, nth_error (st_sides (w_st w)) j = Some sdj ->
+               nth_error (st_sides (w_st w) ++ [{| sd_space := sp1; sd_tab := tab2 |}]) j = Some sdj /\
+               absf h2 sdj = absf (st_heap (w_st w)) sdj)).
+  { intros h2 tab2 F. split.
+    - exists {| sd_space := sp1; sd_tab := tab2 |}. split; [apply nth_error_last|].
+      rewrite <- Ea. unfold absf. cbn [sd_space layers_of].
+      change (abs_side h2 {| sd_space := sp1; sd_tab := tab2 |}) with (abs_side h2 {| sd_space := sp1; sd_tab := tab1 |}).
+      rewrite (agree_abs _ _ _ W1 (frame_nil_agree _ _ _ W1 F)). reflexivity.
+    - intros j sdj Hj. split; [rewrite nth_error_app1; [exact Hj|apply nth_error_Some; congruence]|].
+      destruct (Hothers sdj (proj1 (inv_ok _ I j sdj Hj))) as [Wj1 Eabs].
+      unfold absf. rewrite (agree_abs _ _ _ Wj1 (frame_nil_agree _ _ _ Wj1 F)), Eabs. reflexivity. }
+  destruct ((root =? 1) || negb (Nat.eqb (length (agents_of (st_heap (w_st w)) (s_cells (sd_space sd)))) O)).
+  - rewrite carry_registry_eq.
+    pose proof (carry_frame (st_heap (w_st w)) (nth m (w_models w) []) h1 tab1 []) as F.
+    destruct (carry (st_heap (w_st w)) (nth m (w_models w) []) h1 tab1 []) as [[h2 tab2] newreg].
+    cbn [fst w_st st_heap st_sides] in *. apply (Hext h2 tab2 F).
+  - cbn [fst w_st st_heap st_sides]. apply (Hext h1 tab1 (frame_refl _ _ _ _ _)).
+Qed.
+
+(* the operations of Model/Copy.v actually performed along a world history *)
+Fixpoint weffects (w : world) (ops : list wop) : list op :=
+  match ops with
+  | [] => []
+  | o :: t => (match (if plain o then weffect w o else None) with Some o' => [o'] | None => [] end)
+              ++ weffects (fst (wstep w o)) t
+  end.
+
+Lemma wstep_seen_from w o j sd : Inv12 (w_st w) -> no_delempty o = true -> nth_error (st_sides (w_st w)) j = Some sd ->
+  exists sd', nth_error (st_sides (w_st (fst (wstep w o)))) j = Some sd' /\
+    absf (st_heap (w_st (fst (wstep w o)))) sd'
+    = afinal (absf (st_heap (w_st w)) sd)
+             (filter (fun o' => touches o' j) (match (if plain o then weffect w o else None) with Some o' => [o'] | None => [] end)).
+Proof.
+  intros I Hn Hj. destruct (plain o) eqn:Hp.
+  - destruct (wstep_refines w o j sd I Hp Hj) as [sd' [Hj' E]]. exists sd'. split; [exact Hj'|]. rewrite E.
+    destruct (weffect w o) as [o'|]; [|reflexivity]. cbn [filter]. destruct (touches o' j); reflexivity.
+  - cbn [filter afinal fold_left]. destruct o as [o'|mech src root|s label ci|s label|s ci name v|s|s|s ci key cj]; try discriminate.
+    + (* WCopy *) cbn [wstep].
+      destruct (nth_side (st_sides (w_st w)) src) as [sds|] eqn:En;
+        [|exists sd; split; [unfold wcopy; rewrite En; exact Hj|unfold wcopy; rewrite En; reflexivity]].
+      destruct (model_of w src) as [m|] eqn:Em;
+        [|exists sd; split; [unfold wcopy; rewrite En, Em; exact Hj|unfold wcopy; rewrite En, Em; reflexivity]].
+      destruct (Nat.leb MAX_SIDES (length (st_sides (w_st w)))) eqn:Hm;
+        [exists sd; split; [unfold wcopy; rewrite En, Em, Hm; exact Hj|unfold wcopy; rewrite En, Em, Hm; reflexivity]|].
+      destruct (wcopy_refines w src root sds m I En Em Hm) as [_ Hold]. destruct (Hold j sd Hj) as [H1 H2].
+      exists sd. split; assumption.
+    + (* SForget *) cbn [wstep]. exists sd.
+      destruct (nth_side (st_sets (w_st w)) s); [|split; [exact Hj|reflexivity]].
+      destruct (nth (Z.to_nat s) (w_setpin w) true); split; try exact Hj; reflexivity.
+Qed.
+
+(* C19_world_refinement: along every world history without remove_property_layer("empty") - model copies, off-grid and
+   fixed agents, removals, user attributes, hand-made connections, forgets - the abstract state of side j is the abstract
+   machine of Model/Copy.v run on exactly the operations performed on side j *)
+Theorem world_side_history w ops j sd :
+  Inv12 (w_st w) -> forallb no_delempty ops = true -> nth_error (st_sides (w_st w)) j = Some sd ->
+  exists sd', nth_error (st_sides (w_st (wrun_states w ops))) j = Some sd' /\
+    absf (st_heap (w_st (wrun_states w ops))) sd'
+    = afinal (absf (st_heap (w_st w)) sd) (filter (fun o' => touches o' j) (weffects w ops)).
+Proof.
+  revert w sd; induction ops as [|o t IH]; intros w sd I Hall Hj; simpl.
+  - exists sd. split; [exact Hj|reflexivity].
+  - simpl in Hall. apply andb_true_iff in Hall. destruct Hall as [Ho Ht].
+    destruct (wstep_seen_from w o j sd I Ho Hj) as [sd1 [Hj1 E1]].
+    destruct (IH (fst (wstep w o)) sd1 (wstep_inv w o Ho I) Ht Hj1) as [sd' [Hj' E']].
+    exists sd'. split; [exact Hj'|]. rewrite E', E1. rewrite filter_app. unfold afinal. rewrite fold_left_app. reflexivity.
 Qed.
